@@ -43,6 +43,12 @@ def check(model: Model, rep: Report, tier: str):
         p3(model, rep)
     with rep.isolated():
         p4(model, rep)
+    with rep.isolated():
+        from .c03 import h7 as _h7
+        from ..effects import Effects as _Eff
+        from ..resolve import CallGraph as _CG
+        _cg = _CG(model)
+        _h7(model, rep, _cg, _Eff(model, _cg), rule="C09.P13", keep=lambda f: "/structure/" in f.module.relpath or "/language/" in f.module.relpath)
     from .c17 import y6
     from .common import share_rule
     with rep.isolated():
